@@ -68,6 +68,31 @@ class LogicC06:
 
 
 # ------------------------------------------------------------------------------------------- C07
+# withheld means withheld, not lost, and not reordered: a reply for a sleeping node is appended at the END of its
+# queue (so that the burst, which is emitted from the front, is oldest first), and queues only shrink (to empty) at
+# that node's wake-up announcement
+_QUEUES = lambda old, self, data, result: forall(
+    old.self.sensors,
+    lambda m: m in self.sensors
+    and (
+        self.sensors[m].queue == old.self.sensors[m].queue
+        or (
+            wire.decodable(data)
+            and (
+                # (the addressee of a reply is the sender, or node 255 for the discover broadcast that
+                # answers "gateway ready"; either way only a sleeping node's queue grows, at its end)
+                (
+                    proto.sleeping(old.self, m)
+                    and not (m == F(data)[0] and proto.is_wakeup(self.protocol_version, F(data)[2], F(data)[4]))
+                    and is_prefix(old.self.sensors[m].queue, self.sensors[m].queue)
+                )
+                or (m == F(data)[0] and proto.is_wakeup(self.protocol_version, F(data)[2], F(data)[4]) and not self.sensors[m].queue)
+            )
+        )
+    ),
+)
+
+
 @contract("mysensors:Gateway.logic", props=["C07"])
 class LogicC07:
     configs = _cfg((0, 1, 2, 3, 4), ("2.0", "2.1", "2.2"))
@@ -99,26 +124,7 @@ class LogicC07:
         "jobs-addressed": lambda old, self, data, result: old.G_now.jobs_ok,
         # withheld means withheld, not lost: a reply for a sleeping node is appended to its queue, and
         # queues only shrink (to empty) at that node's wake-up announcement
-        "queues": lambda old, self, data, result: forall(
-            old.self.sensors,
-            lambda m: m in self.sensors
-            and (
-                self.sensors[m].queue == old.self.sensors[m].queue
-                or (
-                    wire.decodable(data)
-                    and (
-                        # (the addressee of a reply is the sender, or node 255 for the discover broadcast that
-                        # answers "gateway ready"; either way only a sleeping node's queue grows, at its end)
-                        (
-                            proto.sleeping(old.self, m)
-                            and not (m == F(data)[0] and proto.is_wakeup(self.protocol_version, F(data)[2], F(data)[4]))
-                            and is_prefix(old.self.sensors[m].queue, self.sensors[m].queue)
-                        )
-                        or (m == F(data)[0] and proto.is_wakeup(self.protocol_version, F(data)[2], F(data)[4]) and not self.sensors[m].queue)
-                    )
-                )
-            ),
-        ),
+        "queues": _QUEUES,
         # traffic for other nodes is never delayed: a node that is not asleep gets nothing queued
         "awake-never-queued": lambda old, self, data, result: forall(
             old.self.sensors,
@@ -155,7 +161,7 @@ class LogicC07:
 # ------------------------------------------------------------------------------------------- C08
 @contract("mysensors:Gateway.logic", props=["C08"])
 class LogicC08:
-    configs = _cfg((1, 3), ("2.0", "2.1", "2.2"))
+    configs = _cfg((1, 2, 3), ("2.0", "2.1", "2.2"))
     setup = _setup
 
     def requires(self, data):
@@ -171,6 +177,9 @@ class LogicC08:
     }
 
     ensures = {
+        # "oldest first" has two halves: the burst is emitted from the front of the queue (burst-replies), and
+        # whatever is withheld in between joins the queue at its end, behind everything withheld earlier
+        "withheld-joins-at-the-end": _QUEUES,
         # at a wake-up announcement every withheld reply goes out exactly once, oldest first ...
         "burst-replies": lambda old, self, data, result: not (
             accepted(self.protocol_version, data)
